@@ -104,11 +104,13 @@ def conditions_of(st):
         node = cfg.node_of(st)
     except (AnalysisError, KeyError):
         return None
-    out = []
+    out, total = [], 0
     for b, lab in controlling_tests(cfg, node):
         c = b.ast if lab == 'T' else negate(b.ast)
-        out.extend(x for x in conjuncts(c) if not nothing_to_do(x))
-    return fn, out
+        cj = conjuncts(c)
+        total += len(cj)
+        out.extend(x for x in cj if not nothing_to_do(x))
+    return fn, out, total
 
 
 # "there is something to do": conditions whose failure means an empty / all
@@ -258,11 +260,12 @@ def collect(ctx):
         r = conditions_of(st)
         if m is None or r is None:
             continue
-        fn, conds = r
+        fn, conds, total = r
         key = f'{m.rel}::{au.qualname(fn)}::{skeleton(st, fn)}'
         res.setdefault(key, []).append(
-            (len(conds), [ast.unparse(c) for c in conds], st.lineno,
-             ast.unparse(st).splitlines()[0][:70], m))
+            (len(conds), [ast.unparse(c) for c in conds],
+             int(getattr(st, '_src_lineno', None) or st.lineno),
+             ast.unparse(st).splitlines()[0][:70], m, total))
     return res
 
 
@@ -301,6 +304,12 @@ def audit(ctx):
         # condition makes the statement run more often, which the rule that
         # matched the statement has to judge
         more = any(h > w for h, w in zip(have, want))
+        # (a "something to do" test re-written as a plain truth test, e.g.
+        # `len(d) > 0` -> `d`, moves a condition from the uncounted to the
+        # counted ones without adding one: the total must grow as well)
+        if more and 'totals' in ref and sum(i[5] for i in items) <= sum(
+                ref['totals']):
+            more = False
         ctx.check(rule, f'{fnname}: `{worst[3]}`', not more,
                   f'runs under {have} condition(s), reference {want}: it '
                   f'now also depends on `{new[0] if new else worst[1]}` -- '
